@@ -661,7 +661,6 @@ def run_sequence(ctx, case):
     ys = [10.5 - 0.25 * r for r in range(rows)]
     xs = [-3.0e6 + 1.0e6 * c for c in range(cols)]
     z = z.assign_coords({z.dims[0]: ys, z.dims[1]: xs}).assign_attrs(res=(1.0e6, 0.25), crs='EPSG:4326')
-    sp = [d for d in v.dims if d not in v.coords or v.ndim == 2][:]
     spatial = [d for i, d in enumerate(v.dims) if not (v.ndim == 3 and i == layer_position(case))]
     v = v.assign_coords({spatial[0]: ys, spatial[1]: xs}).assign_attrs(res=(1.0e6, 0.25), nodata=-1)
     snap = [(a.data.copy(), {k: c.values.copy() for k, c in a.coords.items()}, dict(a.attrs), a.dtype, a.dims) for a in (z, v)]
